@@ -1619,6 +1619,354 @@ val option_effect : str -> str -> val0
 
 val dispatch_option : z -> val0 -> val0 option
 
+val eXIT_OK : z
+
+val eXIT_NOMATCH : z
+
+val eXIT_ERROR : z
+
+val eXIT_INTERRUPT : z
+
+val nLb : z
+
+val nULb : z
+
+val terminator : bool -> z
+
+val frame : z -> str list -> str
+
+val opt_part : bool -> str -> str list
+
+val shown : bool -> (str -> str) -> str -> str
+
+val matched_from : (nat -> str -> bool) -> nat -> str list -> str list
+
+val matched_records : (nat -> str -> bool) -> str list -> str list
+
+val filter_parts : bool -> str -> str list -> str list
+
+val unsorted_body :
+  bool -> bool -> (str -> str) -> (nat -> str -> bool) -> str list -> str list
+
+type ending =
+| EAccept
+| EPrintQuery
+| EAbort
+| EError
+
+val exit_status : ending -> str list -> z
+
+val accept_parts :
+  bool -> str -> bool -> str -> str list -> str list -> str list
+
+val stdout_of :
+  ending -> z -> bool -> str -> bool -> str -> str list -> str list -> str
+
+val sel_mem0 : ('a1 -> nat) -> 'a1 -> 'a1 list -> bool
+
+val sel_remove0 : ('a1 -> nat) -> 'a1 -> 'a1 list -> 'a1 list
+
+val sel_add0 : ('a1 -> nat) -> nat -> 'a1 -> 'a1 list -> 'a1 list * bool
+
+val sel_toggle0 : ('a1 -> nat) -> nat -> 'a1 -> 'a1 list -> 'a1 list
+
+val sel_add_all0 : ('a1 -> nat) -> nat -> 'a1 list -> 'a1 list -> 'a1 list
+
+val sel_remove_all0 : ('a1 -> nat) -> 'a1 list -> 'a1 list -> 'a1 list
+
+val sel_toggle_all0 : ('a1 -> nat) -> nat -> 'a1 list -> 'a1 list -> 'a1 list
+
+val result_body : 'a1 option -> 'a1 list -> 'a1 list
+
+val is_blank0 : z -> bool
+
+val is_space_ascii : z -> bool
+
+val trim_right0 : str -> str
+
+val take_while1 : ('a1 -> bool) -> 'a1 list -> 'a1 list
+
+val awk_fields_fuel : nat -> str -> str list
+
+val awk_fields : str -> str list
+
+type sel_event =
+| SToggle of nat
+| SSelect of nat
+| SDeselect of nat
+| SSelectAll of nat list
+| SDeselectAll of nat list
+| SToggleAll of nat list
+| SClear
+| SPrint of str
+
+val ev_step : nat -> (nat list * str list) -> sel_event -> nat list * str list
+
+val session_result :
+  z -> bool -> str -> bool -> str -> (nat -> str) -> nat -> sel_event list ->
+  nat option -> ending -> str * z
+
+val strip_prefix : str -> str -> str option
+
+val remove_first : str -> str list -> str list
+
+val dedup : str list -> str list
+
+val framed_perm : nat -> z -> str list -> str -> bool
+
+val filter_verdict :
+  bool -> bool -> bool -> bool -> bool -> str -> (str -> str) -> (nat -> str
+  -> bool) -> str list -> str -> z -> bool * bool
+
+val exitOk : z
+
+val exitNoMatch : z
+
+val exitError : z
+
+val exitInterrupt : z
+
+type item0 = { it_index : nat; it_text : str; it_orig : str option }
+
+type oopts = { o_ansi : bool; o_with_nth : bool; o_print0 : bool;
+               o_print_query : bool; o_sort : bool; o_tac : bool;
+               o_sync : bool }
+
+type delim =
+| DAwk
+| DStr of str
+
+type range = { r_begin : z; r_end : z }
+
+type nth_part =
+| PStr0 of str
+| PIndex
+| PNth0 of range list
+
+type nth_fn =
+| NthRanges of range list
+| NthTemplate of nth_part list
+
+val new_range0 : z -> z -> range
+
+type awk_state =
+| AwkNil
+| AwkBlack
+| AwkWhite
+
+val awk_loop : awk_state -> str -> str list -> str -> str list
+
+val awk_tokenizer : str -> str list
+
+val is_prefix : str -> str -> bool
+
+val split_after_go : str -> nat -> str -> str -> str list
+
+val split_after : str -> str -> str list
+
+val tokenize : delim -> str -> str list
+
+val collect_range : nat -> z -> str list -> str list res
+
+val transform_one : str list -> range -> str res
+
+val map_res : ('a1 -> 'a2 res) -> 'a1 list -> 'a2 list res
+
+val join_transform : str list -> range list -> str res
+
+val strip_suffix_rev : str -> str -> str option
+
+val trim_suffix : str -> str -> str
+
+val is_space_byte : z -> bool
+
+val trim_right_space : str -> str
+
+val strip_last_delimiter : delim -> str -> str
+
+val itoa_fuel : nat -> z -> str -> str
+
+val itoa : z -> str
+
+val template_loop : delim -> str list -> z -> nth_part list -> str -> str res
+
+val apply_nth : delim -> nth_fn -> str list -> z -> str res
+
+val ansi_processor : (str -> str) -> oopts -> str -> str
+
+val trans :
+  (str -> str) -> (nat -> str -> str) -> oopts -> nat -> str -> item0
+
+val as_string : (str -> str) -> (str -> str) -> bool -> item0 -> str
+
+val printer : bool -> str -> str -> str
+
+val stream_loop :
+  (str -> str) -> (str -> str) -> (nat -> str -> str) -> (item0 -> bool) ->
+  oopts -> nat -> str list -> str -> bool -> str * bool
+
+val build_items :
+  (str -> str) -> (nat -> str -> str) -> oopts -> nat -> str list -> item0
+  list
+
+val scan :
+  (item0 -> bool) -> (item0 list -> item0 list) -> bool -> oopts -> item0
+  list -> item0 list
+
+val print_loop :
+  (str -> str) -> (str -> str) -> oopts -> item0 list -> str -> bool ->
+  str * bool
+
+val filter_mode :
+  (str -> str) -> (str -> str) -> (nat -> str -> str) -> (item0 -> bool) ->
+  (item0 list -> item0 list) -> bool -> oopts -> str -> str list -> str * z
+
+type topts = { to_ansi : bool; to_print0 : bool; to_print_query : bool;
+               to_expect : bool; to_multi : nat;
+               to_accept_nth : nth_fn option; to_delim : delim }
+
+type smap = (nat * (nat * item0)) list
+
+type sstate0 = smap * nat
+
+val m_find : nat -> smap -> (nat * item0) option
+
+val m_delete : nat -> smap -> smap
+
+val select_item0 : nat -> item0 -> sstate0 -> sstate0 * bool
+
+val deselect_item0 : item0 -> sstate0 -> sstate0
+
+val toggle_item0 : nat -> item0 -> sstate0 -> sstate0 * bool
+
+val insert_by_time : (nat * item0) -> (nat * item0) list -> (nat * item0) list
+
+val sort_selected : smap -> item0 list
+
+type term = { t_merger : item0 list; t_cy : z; t_sel : sstate0;
+              t_queue : str list; t_input : str; t_pressed : str;
+              t_reading : bool; t_count : nat }
+
+val with_sel0 : term -> sstate0 -> term
+
+val with_cy : term -> z -> term
+
+val current_item0 : term -> item0 option res
+
+val constrain0 : z -> z -> z -> z
+
+val vset0 : term -> z -> term
+
+val vmove0 : term -> z -> term
+
+val accept_nth :
+  (str -> str) -> (str -> str) -> topts -> nth_fn -> item0 -> str res
+
+val out_transform : (str -> str) -> (str -> str) -> topts -> item0 -> str res
+
+val print_items :
+  (str -> str) -> (str -> str) -> topts -> item0 list -> str -> str res
+
+val output0 :
+  (str -> str) -> (str -> str) -> topts -> term -> (str * bool) res
+
+type action0 =
+| AToggle0
+| ASelect0
+| ADeselect0
+| ASelectAll0
+| ADeselectAll0
+| AToggleAll0
+| AClearSelection0
+| AToggleDown
+| AToggleUp
+| AUp0
+| ADown0
+| AFirst0
+| ALast0
+| APos0 of z
+| APrint of str
+| AUpdate0 of str * item0 list * z
+| AAccept
+| AAcceptNonEmpty
+| AAcceptOrPrintQuery
+| APrintQuery
+| AAbort
+| AFatal
+| AExpect of str
+
+type outcome1 =
+| Running of term
+| Exited of str * z
+
+val select_all_loop0 : nat -> item0 list -> sstate0 -> sstate0
+
+val deselect_all_loop0 : item0 list -> sstate0 -> sstate0
+
+val toggle_all_1 :
+  nat -> item0 list -> sstate0 -> nat list -> sstate0 * nat list
+
+val toggle_all_2 : nat -> nat -> item0 list -> sstate0 -> nat list -> sstate0
+
+val toggle_current0 : topts -> term -> (term * bool) res
+
+val req_close : (str -> str) -> (str -> str) -> topts -> term -> outcome1 res
+
+val req_print_query : topts -> term -> outcome1
+
+val do_action0 :
+  (str -> str) -> (str -> str) -> topts -> term -> action0 -> outcome1 res
+
+val run_actions :
+  (str -> str) -> (str -> str) -> topts -> term -> action0 list -> outcome1
+  res
+
+val select1_exit0 :
+  (str -> str) -> (str -> str) -> topts -> bool -> bool -> str -> item0 list
+  -> (str * z) option res
+
+val interactive :
+  (str -> str) -> (str -> str) -> bool -> topts -> bool -> bool -> str ->
+  item0 list -> nat -> action0 list -> outcome1 res
+
+val tbl_lookup : (str * str) list -> str -> str
+
+val as_tbl : val0 -> (str * str) list
+
+val as_bits : val0 -> bool list
+
+val match_by_index : bool list -> item0 -> bool
+
+val as_oopts : val0 -> oopts
+
+val d_filter : val0 -> val0
+
+val d_filter_spec : val0 -> val0
+
+val as_ranges : val0 -> range list
+
+val as_part : val0 -> nth_part
+
+val as_nth_fn : val0 -> nth_fn option
+
+val as_delim : val0 -> delim
+
+val as_topts : val0 -> topts
+
+val pick_items : item0 list -> nat list -> item0 list
+
+val as_action : item0 list -> val0 -> action0
+
+val d_interactive : val0 -> val0
+
+val as_event : val0 -> sel_event
+
+val as_ending : val0 -> ending
+
+val d_session_spec : val0 -> val0
+
+val dispatch_output : z -> val0 -> val0 option
+
 val chSP : z
 
 val chBS : z
@@ -1706,10 +2054,10 @@ type ttype =
 | TermSuffix
 | TermEqual
 
-type term = { tm_typ : ttype; tm_inv : bool; tm_text : str; tm_cs : bool;
-              tm_nm : bool }
+type term0 = { tm_typ : ttype; tm_inv : bool; tm_text : str; tm_cs : 
+               bool; tm_nm : bool }
 
-type termSet = term list
+type termSet = term0 list
 
 type popts = { p_fuzzy : bool; p_v2 : bool; p_extended : bool;
                p_case : case_mode; p_normalize : bool; p_forward : bool;
@@ -1786,7 +2134,7 @@ val z_of_ttype : ttype -> z
 
 val z_of_kind : kind -> z
 
-val v_term : term -> val0
+val v_term : term0 -> val0
 
 val v_sterm : sterm -> val0
 
@@ -1858,13 +2206,13 @@ val export_word : str
 
 val export_line : str -> str -> str
 
-val strip_prefix : str -> str -> str option
+val strip_prefix0 : str -> str -> str option
 
 val has_prefix1 : str -> str -> bool
 
 val has_suffix1 : str -> str -> bool
 
-val trim_suffix : str -> str -> str
+val trim_suffix0 : str -> str -> str
 
 val span : (z -> bool) -> str -> nat * str
 
@@ -1907,7 +2255,7 @@ type piece =
 
 val flush_lit : str -> piece list -> piece list
 
-val scan : str -> nat -> str -> piece list
+val scan0 : str -> nat -> str -> piece list
 
 type flags = { f_plus : bool; f_space : bool; f_number : bool; f_file : 
                bool; f_raw : bool }
@@ -1934,7 +2282,7 @@ val itoa_pos : nat -> z -> str -> str
 
 val bits : z -> nat
 
-val itoa : z -> str
+val itoa0 : z -> str
 
 val s_dd : str
 
@@ -1942,7 +2290,7 @@ val split_dd : str -> str -> str list
 
 type rng = z * z
 
-val new_range0 : z -> z -> rng
+val new_range1 : z -> z -> rng
 
 val atoi_nz : str -> z option
 
@@ -1954,20 +2302,20 @@ val parse_ranges : str list -> rng list option
 
 val split_nth0 : str -> rng list option
 
-type awk_state =
-| AwkNil
-| AwkBlack
-| AwkWhite
+type awk_state0 =
+| AwkNil0
+| AwkBlack0
+| AwkWhite0
 
 val awk_white : z -> bool
 
-val awk_go : str -> awk_state -> str -> str list -> str list
+val awk_go : str -> awk_state0 -> str -> str list -> str list
 
 val awk_tokens : str -> str list
 
-val split_after : nat -> str -> str -> str -> str list res
+val split_after0 : nat -> str -> str -> str -> str list res
 
-val tokenize : str option -> str -> str list res
+val tokenize0 : str option -> str -> str list res
 
 val sel_go : str list -> z -> z -> z -> str
 
@@ -1987,13 +2335,13 @@ val trim_with : (str -> nat) -> nat -> str -> str
 
 val trim_space0 : str -> str
 
-type item0 = z * str
+type item1 = z * str
 
 val min_int32 : z
 
 type params = { p_delim : str option; p_printsep : str; p_force_plus : 
-                bool; p_query : str; p_current : item0 list;
-                p_selected : item0 list; p_action : str; p_prompt : str;
+                bool; p_query : str; p_current : item1 list;
+                p_selected : item1 list; p_action : str; p_prompt : str;
                 p_fish : bool }
 
 type outp =
@@ -2018,16 +2366,16 @@ val s_empty_quotes : str
 
 val quoted : params -> str -> str * str
 
-val repl_item : params -> flags -> item0 -> str * str
+val repl_item : params -> flags -> item1 -> str * str
 
 val field_value : params -> flags -> rng list -> str -> str res
 
-val repl_fields : params -> flags -> rng list -> item0 -> (str * str) res
+val repl_fields : params -> flags -> rng list -> item1 -> (str * str) res
 
-val map_res : ('a1 -> 'a2 res) -> 'a1 list -> 'a2 list res
+val map_res0 : ('a1 -> 'a2 res) -> 'a1 list -> 'a2 list res
 
 val over_items :
-  params -> flags -> bool -> (item0 -> (str * str) res) -> str list ->
+  params -> flags -> bool -> (item1 -> (str * str) res) -> str list ->
   ((outp * str list) * str list) res
 
 val expand_ph :
@@ -2043,7 +2391,7 @@ val replace_placeholder : params -> str -> str list -> (str * str list) res
 
 val vopt_words : str list option -> val0
 
-val as_item0 : val0 -> item0
+val as_item0 : val0 -> item1
 
 val as_optstr : val0 -> str option
 
@@ -2069,17 +2417,17 @@ val split_acc : z -> str -> str -> str list
 
 val split_records : z -> str -> str list
 
-type item1 = nat * str
+type item2 = nat * str
 
-val number_from : nat -> str list -> item1 list
+val number_from : nat -> str list -> item2 list
 
 val header_of : nat -> str list -> str list
 
-val items_of : nat -> str list -> item1 list
+val items_of : nat -> str list -> item2 list
 
 val keep_tail : nat -> 'a1 list -> 'a1 list
 
-val searchable : bool -> nat -> nat -> str -> item1 list
+val searchable : bool -> nat -> nat -> str -> item2 list
 
 type slice0 = { sl_buf : nat; sl_off : nat; sl_len : nat }
 
@@ -2157,19 +2505,19 @@ val run_ops :
 
 type bstate = { b_header : str list; b_index : nat }
 
-val build : nat -> bstate -> str -> bstate * item1 option
+val build : nat -> bstate -> str -> bstate * item2 option
 
 val ingest :
-  nat -> nat -> bstate -> item1 chunklist -> str list -> (bstate * item1
+  nat -> nat -> bstate -> item2 chunklist -> str list -> (bstate * item2
   chunklist) res
 
 val pipeline :
   nat -> nat -> nat -> bool -> nat -> nat -> str -> nat list -> (str
-  list * item1 list) res
+  list * item2 list) res
 
 val as_nats : val0 -> nat list
 
-val vitem0 : item1 -> val0
+val vitem0 : item2 -> val0
 
 val vres_strs : str list res -> val0
 
@@ -2191,7 +2539,7 @@ val d_keep_tail : val0 -> val0
 
 val dispatch_record : z -> val0 -> val0 option
 
-val is_blank0 : z -> bool
+val is_blank1 : z -> bool
 
 val non_blank : z -> bool
 
@@ -2201,13 +2549,13 @@ val awk_fields_from : nat -> str -> str list
 
 val awk_lead : str -> str
 
-val awk_fields : str -> str list
+val awk_fields0 : str -> str list
 
-val is_prefix : str -> str -> bool
+val is_prefix0 : str -> str -> bool
 
-val split_after_go : str -> nat -> str -> str -> str list
+val split_after_go0 : str -> nat -> str -> str -> str list
 
-val split_after0 : str -> str -> str list
+val split_after1 : str -> str -> str list
 
 val split_by_from : nat -> (nat * nat) list -> str -> str list
 
@@ -2241,7 +2589,7 @@ val digits_of : nat -> z -> str -> str
 
 val digits : z -> str
 
-val itoa0 : z -> str
+val itoa1 : z -> str
 
 val dOT0 : z
 
@@ -2249,15 +2597,15 @@ val print_fexpr : fexpr -> str
 
 val is_space0 : z -> bool
 
-val trim_right0 : (z -> bool) -> str -> str
+val trim_right1 : (z -> bool) -> str -> str
 
 val inside_selection : fexpr -> nat -> str list -> nat -> nat -> bool
 
 type token = { t_text0 : str; t_prefix : z }
 
 type delimiter =
-| DAwk
-| DStr of str
+| DAwk0
+| DStr0 of str
 | DRegex of (str -> (nat * nat) list)
 
 val is_awk : delimiter -> bool
@@ -2266,18 +2614,18 @@ val slice1 : str -> nat -> nat -> str res
 
 val with_prefix_lengths : str list -> z -> token list
 
-type awk_state0 =
-| AwkNil0
-| AwkBlack0
-| AwkWhite0
+type awk_state1 =
+| AwkNil1
+| AwkBlack1
+| AwkWhite1
 
-val awk_loop : awk_state0 -> str -> str list -> z -> str -> str list * z
+val awk_loop0 : awk_state1 -> str -> str list -> z -> str -> str list * z
 
-val awk_tokenizer : str -> str list * z
+val awk_tokenizer0 : str -> str list * z
 
 val regex_tokens : str -> nat -> (nat * nat) list -> str list res
 
-val tokenize0 : str -> delimiter -> token list res
+val tokenize1 : str -> delimiter -> token list res
 
 val has_prefix2 : str -> str -> bool
 
@@ -2285,7 +2633,7 @@ val has_suffix2 : str -> str -> bool
 
 val contains0 : str -> str -> bool
 
-val trim_suffix0 : str -> str -> str
+val trim_suffix1 : str -> str -> str
 
 val split_go : str -> nat -> str -> str -> str list
 
@@ -2301,17 +2649,17 @@ val iNT_MAX0 : z
 
 val atoi2 : str -> z option
 
-type range = z * z
+type range0 = z * z
 
-val new_range1 : z -> z -> range
+val new_range2 : z -> z -> range0
 
 val dD : str
 
-val parse_range1 : str -> range option
+val parse_range1 : str -> range0 option
 
-val range_to_string : range -> str
+val range_to_string : range0 -> str
 
-val ranges_to_string : range list -> str
+val ranges_to_string : range0 list -> str
 
 val join_tokens : token list -> str
 
@@ -2319,26 +2667,26 @@ val adj : z -> z -> z
 
 val collect : token list -> z -> nat -> z -> z -> str list res
 
-val transform_one : token list -> range -> token res
+val transform_one0 : token list -> range0 -> token res
 
-val transform : token list -> range list -> token list res
+val transform : token list -> range0 list -> token list res
 
-val strip_last_delimiter : str -> delimiter -> str res
+val strip_last_delimiter0 : str -> delimiter -> str res
 
 val map_last : ('a1 -> 'a1 res) -> 'a1 list -> 'a1 list res
 
-val transform_input : str -> range list -> delimiter -> token list res
+val transform_input : str -> range0 list -> delimiter -> token list res
 
 type match_fn = str -> ((nat * nat) * nat list) option
 
 val iter : match_fn -> token list -> ((z * z) * z list) option
 
 val nth_match :
-  match_fn -> str -> range list -> delimiter -> ((z * z) * z list) option res
+  match_fn -> str -> range0 list -> delimiter -> ((z * z) * z list) option res
 
-val nth_transformer : range list -> token list -> str res
+val nth_transformer : range0 list -> token list -> str res
 
-val accept_nth : str -> range list -> delimiter -> str res
+val accept_nth0 : str -> range0 list -> delimiter -> str res
 
 val vtok : token -> val0
 
@@ -2356,11 +2704,11 @@ val rx_lookup : (str * (nat * nat) list) list -> str -> (nat * nat) list
 
 val as_rx : val0 -> str -> (nat * nat) list
 
-val as_delim : val0 -> delimiter
+val as_delim0 : val0 -> delimiter
 
-val as_range : val0 -> range
+val as_range : val0 -> range0
 
-val as_ranges : val0 -> range list
+val as_ranges0 : val0 -> range0 list
 
 val as_optz0 : val0 -> z option
 
@@ -2434,7 +2782,7 @@ type kind0 =
 | KSymFile
 | KSymDir
 
-type action0 =
+type action1 =
 | Continue
 | SkipDir
 
@@ -2462,7 +2810,7 @@ val trim_loop0 : str -> str
 
 val trim_path : str -> str
 
-val take_while1 : ('a1 -> bool) -> 'a1 list -> 'a1 list
+val take_while2 : ('a1 -> bool) -> 'a1 list -> 'a1 list
 
 val go_base : str -> str
 
@@ -2472,9 +2820,9 @@ val push0 : bool -> str -> str list
 
 val walk_fn :
   wopts -> ((str list * str list) * str list) -> str -> kind0 -> (str
-  list * action0) res
+  list * action1) res
 
-type callback = str -> kind0 -> (str list * action0) res
+type callback = str -> kind0 -> (str list * action1) res
 
 val fw_entry : callback -> bool -> str -> entry -> str list res
 
